@@ -49,7 +49,9 @@ THEOREMS = ["QExPy.C10_mean_def",
             "QExPy.C10_selected_used_downstream"]
 RULE = ("seeded reading arrays (n 2..40, lists and ndarrays, offsets up to 1e6, spreads down to "
         "1e-3, no / common / per-element uncertainties, occasionally a zero uncertainty), selector "
-        "sequences of length 0-8, a downstream formula k*a+c read after every selector, a second "
+        "sequences of length 0-8, a downstream formula k*a+c read after every selector by the "
+        "derivative method AND by the Monte Carlo method (recorded draws: samples = "
+        "k*(value in use + uncertainty in use*z)+c), a second "
         "array for the inferred covariance (random, exactly collinear, n=2, constant, unequal "
         "length) through set_covariance or set_correlation; every statistic compared with "
         "Model/Stats.lean run at FB (Float + rounding bound); non-trivial = spread > 0 and "
@@ -81,7 +83,7 @@ def gen_array(rng, n):
 
 
 SPECIALS = ["wmean0", "wmean0", "wmean0", "mean0", "mean0-weighted", "const", "negzero", "wmean-int",
-            "equal-pair", "wmean0-mean0"]
+            "equal-pair", "wmean0-mean0", "wmean0-inexact-weights", "wmean0-inexact-weights"]
 
 
 def gen_special(rng):
@@ -92,6 +94,18 @@ def gen_special(rng):
     tag = rng.choice(SPECIALS)
     n = rng.choice([2, 2, 3, 3, 4, 5, 8])
     small = lambda: rng.randint(-24, 24) / rng.choice([1, 2, 4])   # noqa: E731
+    if tag == "wmean0-inexact-weights":
+        # readings that sum to exactly 0 with EQUAL uncertainties that are not dyadic: the weighted
+        # mean is exactly 0 over the rationals, but 1/sigma^2 is not representable and binary64
+        # leaves a residue of a few 1e-16 * |x| (a statistic is judged relative to the size of its
+        # terms, not to its own -- here vanishing -- value)
+        while True:
+            xs = [small() for _ in range(n - 1)]
+            xs.append(-sum(xs))
+            if len(set(xs)) >= 2:
+                break
+        e = rng.choice([2.781264053559593, 0.3, 1.1, round(rng.uniform(0.05, 5), rng.randint(2, 15))])
+        return tag, xs, [e] * n
     if tag in ("wmean0", "wmean-int", "wmean0-mean0"):
         while True:
             es = [2.0 ** rng.randint(-2, 2) for _ in range(n)]
@@ -137,7 +151,8 @@ def gen_case(rng, malformed=False):
     c = {"xs": [bits(x) for x in xs], "nd": rng.random() < 0.4, "es": None, "common": None,
          "sels": [rng.choice(SELS) for _ in range(rng.choice([0, 1, 2, 3, 4, 6, 8]))],
          "k": bits(rng.choice([2.0, -3.0, 0.5, 1.0, -1.25])), "c": bits(rng.choice([0.0, 1.0, -7.5])),
-         "pair": None, "bad": None}
+         "pair": None, "bad": None, "mcvia": rng.choice(["value", "value", "global"]),
+         "mcn": rng.choice([8, 16, 33])}
     if not malformed and rng.random() < 0.2:
         tag, xs, es = gen_special(rng)
         c["special"] = tag
@@ -223,7 +238,8 @@ def gen_collinear_case(rng):
             "pair": {"ys": [bits(y) for y in ys], "mode": "collinear" if kk > 0 else "anti",
                      "sign": 1 if kk > 0 else -1, "via": "cov" if rng.random() < 0.85 else "corr",
                      "form": rng.choice(["fn", "meth"])},
-            "bad": None, "special": "collinear-targeted"}
+            "bad": None, "special": "collinear-targeted", "mcvia": rng.choice(["value", "global"]),
+            "mcn": 8}
 
 
 def describe(c):
@@ -268,12 +284,55 @@ def observe(q, c):
     def state():
         d = kk * a + cc
         return [float(a.value), float(a.error), float(d.value), float(d.error)]
+
+    def mc_state():
+        """the SAME downstream formula under the Monte Carlo method: the draws are recorded, so the
+        samples must be k*(value in use + uncertainty in use * z) + c for the recorded z"""
+        from props import _mc as MC
+        n = c.get("mcn", 16)
+        via = c.get("mcvia", "value")
+        val, err = float(a.value), float(a.error)
+        d = kk * a + cc
+        try:
+            if via == "global":
+                q.set_error_method(q.ErrorMethod.MONTE_CARLO)
+                q.set_monte_carlo_sample_size(n)
+            else:
+                d.error_method = q.ErrorMethod.MONTE_CARLO
+                d.mc.sample_size = n
+            with MC.Capture() as cap:
+                smp = np.array(d.mc.samples(), dtype=float)
+                dv, de = float(d.value), float(d.error)
+        finally:
+            if via == "global":
+                q.set_error_method(q.ErrorMethod.DERIVATIVE)
+                q.set_monte_carlo_sample_size(10000)
+        r = {"draw_calls": len(cap.calls), "n": int(len(smp)), "value": val, "error": err}
+        if len(cap.calls) == 1 and len(cap.calls[0][1]) == n == len(smp):
+            z = cap.calls[0][1]
+            exp = kk * (val + err * z) + cc
+            scale = abs(kk) * (abs(val) + abs(err) * np.abs(z)) + abs(cc)
+            dev = np.abs(smp - exp) / (scale + 1e-300)
+            j = int(np.argmax(dev))
+            r.update({"maxdev": float(dev[j]), "at": j, "z": float(z[j]), "sample": float(smp[j]),
+                      "expected": float(exp[j]),
+                      # the selected uncertainty as the samples show it: spread / (|k| spread of z)
+                      "sigma_seen": float(np.std(smp, ddof=1) / (abs(kk) * np.std(z, ddof=1)))
+                      if n >= 2 and np.std(z) > 0 else None,
+                      "mean_ok": bool(abs(dv - np.mean(smp)) <= 1e-12 * float(np.max(scale))),
+                      "std_ok": bool(n < 2 or abs(de - np.std(smp, ddof=1)) <= 1e-9 * float(
+                          np.max(scale)))})
+        return r
     s, v = H.call(state)
     out["trace"] = [v if s == "ok" else "exc:" + v]
+    s, v = H.call(mc_state)
+    out["mctrace"] = [v if s == "ok" else "exc:" + str(v)]
     for sel in c["sels"]:
         s, v = H.call(lambda: getattr(a, SEL_METHOD[sel])())
         s2, v2 = H.call(state)
         out["trace"].append(v2 if (s == "ok" and s2 == "ok") else "exc:{}/{}".format(v, v2))
+        s3, v3 = H.call(mc_state)
+        out["mctrace"].append(v3 if s3 == "ok" else "exc:" + str(v3))
     if c["pair"]:
         ys = [unbits(y) for y in c["pair"]["ys"]]
         s, b = H.call(lambda: q.Measurement(np.array(ys) if c["nd"] else ys))
@@ -354,11 +413,48 @@ def const_check(c, o, fail):
             fail("selector:{}:exception".format(sel), "selector / read raised " + str(ot), impl=ot)
             break
         exp = [val, err, kk * val + cc, abs(kk) * err]
-        bad = [f for f, a, b in zip(("value", "error", "downstream-value", "downstream-error"), ot, exp)
-               if not (a == b or abs(a - b) <= 1e-12 * abs(b))]
+        # relative to the size of the TERMS (k*value and c may cancel), never to the result
+        mags = [abs(val), abs(err), abs(kk * val) + abs(cc), abs(kk) * abs(err)]
+        bad = [f for f, a, b, g in zip(("value", "error", "downstream-value", "downstream-error"), ot,
+                                       exp, mags)
+               if not (a == b or abs(a - b) <= 1e-12 * g)]
         if bad:
             fail("selector:{}:{}".format(sel, bad[0]), "after {} the {} is not the selected statistic "
                  "(equal readings)".format(sel, bad[0]), impl=ot, expected=exp, step=i, clause="selectors")
+            break
+
+
+def mc_downstream_check(c, o, fail):
+    """'the one used in all later propagation' under the Monte Carlo method: after every selector
+    step the samples of k*a + c are k*(value in use + uncertainty in use * z) + c for the recorded
+    standard-normal draws z (exactly, up to rounding)"""
+    for i, r in enumerate(o.get("mctrace", [])):
+        sel = c["sels"][i - 1] if i else "init"
+        if not isinstance(o["trace"][i] if i < len(o["trace"]) else None, list):
+            break           # the derivative-method read of this step already raised (reported there)
+        if not isinstance(r, dict):
+            fail("selector:{}:monte-carlo:exception".format(sel), "Monte Carlo read of k*a+c after "
+                 "{} raised {}".format(sel, r), impl=r, step=i, clause="selectors, Monte Carlo propagation")
+            break
+        n = c.get("mcn", 16)
+        if r["draw_calls"] != 1 or r["n"] != n or "maxdev" not in r:
+            fail("selector:{}:monte-carlo:draws".format(sel), "Monte Carlo read of k*a+c did not draw "
+                 "one array of {} standard-normal offsets for the one source".format(n), impl=r,
+                 step=i, clause="selectors, Monte Carlo propagation")
+            break
+        if not r["maxdev"] <= 1e-12:
+            fail("selector:{}:monte-carlo-downstream".format(sel),
+                 "after {} the Monte Carlo samples of k*a+c are not k*(value + uncertainty*z)+c with "
+                 "the value {!r} and uncertainty {!r} in use: for z = {!r} the sample is {!r}, expected "
+                 "{!r}; the spread of the samples corresponds to an uncertainty of {!r}".format(
+                     sel, r["value"], r["error"], r["z"], r["sample"], r["expected"], r["sigma_seen"]),
+                 impl=r["sample"], expected=r["expected"], step=i, sigma_in_use=r["error"],
+                 sigma_seen=r["sigma_seen"], clause="selectors, Monte Carlo propagation")
+            break
+        if not (r["mean_ok"] and r["std_ok"]):
+            fail("selector:{}:monte-carlo-moments".format(sel), "Monte Carlo value/uncertainty of k*a+c "
+                 "are not the mean and n-1 standard deviation of its samples", impl=r, step=i,
+                 clause="selectors, Monte Carlo propagation")
             break
 
 
@@ -428,6 +524,7 @@ def compare(c, o, m):
         else:
             continue
         break
+    mc_downstream_check(c, o, fail)
     # inferred covariance
     p = o.get("pair")
     if p:
@@ -487,6 +584,11 @@ def run_cases(ctx, cases, ref=False):
         d["errors:" + ("each" if c["es"] else "common" if c["common"] is not None else "none")] += 1
         d["container:" + ("ndarray" if c["nd"] else "list")] += 1
         d["selectors:%d" % len(c["sels"])] += 1
+        for i, r in enumerate(o.get("mctrace", [])):
+            if isinstance(r, dict):
+                d["monte-carlo-downstream-read:after-" + (c["sels"][i - 1] if i else "construction")] += 1
+                d["monte-carlo-downstream-read:method-set-" + (
+                    "globally" if c.get("mcvia") == "global" else "on-the-result")] += 1
         if c.get("special"):
             d["special:" + c["special"]] += 1
         for s in c["sels"]:
@@ -560,28 +662,44 @@ def exact_check(c, o):
     if kappa > 1e10:
         return fails
     tol = 1e-13 * kappa + 1e-12
+    # Natural magnitudes.  The reference is exact; the implementation computes in binary64 from
+    # inputs (1/sigma^2, x/n) that are NOT exactly representable, so a statistic whose exact value is
+    # 0 (or tiny by cancellation) is only reproduced up to rounding of its TERMS: every comparison
+    # below is relative to the size of the terms that are summed, never to the (possibly zero) result.
+    xsf = [abs(unbits(x)) for x in c["xs"]]
+    n = len(xsf)
+    mag_mean = sum(xsf) / n                      # sum |x_i| / n
+    std_f = r["std"]
+    mag_w = None
+    if "wmean" in r:
+        es_ = c["es"] if c["es"] is not None else [c["common"]] * n
+        w_ = [1.0 / unbits(e) ** 2 for e in es_]
+        mag_w = sum(wi * xi for wi, xi in zip(w_, xsf)) / sum(w_)     # sum |w_i x_i| / sum w_i
 
-    def near(a, b, t=tol):
-        return isinstance(a, float) and abs(a - b) <= t * (abs(b) + 1e-300) + 1e-300
+    def near(a, b, t, mag):
+        """|a - b| <= t * mag, mag being the natural magnitude of the quantity (>= |b|)"""
+        return isinstance(a, float) and abs(a - b) <= t * max(mag, abs(b)) + 1e-300
 
-    def fail(sig, what, impl, exp):
-        fails.append({"signature": "c10:" + sig, "what": what + " (exact rational reference)",
-                      "input": describe(c), "case": c, "impl": impl, "expected": exp,
-                      "oracle": "independent", "kind": "violation"})
-    if not near(o["mean"], r["mean"], 1e-12 * math.sqrt(kappa) + 1e-13):
+    def fail(sig, what, impl, exp, **kw):
+        fails.append(dict({"signature": "c10:" + sig, "what": what + " (exact rational reference)",
+                           "input": describe(c), "case": c, "impl": impl, "expected": exp,
+                           "oracle": "independent", "kind": "violation"}, **kw))
+    if not near(o["mean"], r["mean"], 1e-13, mag_mean):
         fail("stat:mean", "mean differs from sum/n", o["mean"], r["mean"])
-    if not near(o["std"], r["std"]):
+    # the spread: deviations x_i - mean carry the rounding of x_i and of the mean (eps*|x|), hence
+    # the conditioning factor kappa = 1 + mean^2/var on a tolerance relative to the std itself
+    if not near(o["std"], r["std"], tol, std_f):
         fail("stat:std", "std differs from the n-1 sample standard deviation", o["std"], r["std"])
-    if not near(o["error_on_mean"], r["sem"]):
+    if not near(o["error_on_mean"], r["sem"], tol, r["sem"]):
         fail("stat:error_on_mean", "error on the mean differs from std/sqrt(n)",
              o["error_on_mean"], r["sem"])
     if "wmean" in r:
-        if not near(o["error_weighted_mean"], r["wmean"], 1e-11 * math.sqrt(kappa)):
+        if not near(o["error_weighted_mean"], r["wmean"], 1e-12, mag_w):
             fail("stat:error_weighted_mean", "weighted mean differs", o["error_weighted_mean"], r["wmean"])
-        if not near(o["propagated_error"], r["perr"], 1e-12):
+        if not near(o["propagated_error"], r["perr"], 1e-12, r["perr"]):
             fail("stat:propagated_error", "propagated error differs", o["propagated_error"], r["perr"])
-    # selector machine, replayed on the implementation's own statistics
-    val, err = r["mean"], r["sem"]
+    # selector machine, replayed on the exact statistics
+    val, err, vmag = r["mean"], r["sem"], mag_mean
     kk, cc = unbits(c["k"]), unbits(c["c"])
     for i, ot in enumerate(o["trace"]):
         if i:
@@ -591,20 +709,22 @@ def exact_check(c, o):
             elif s == "use_sem":
                 err = r["sem"]
             elif s == "use_wmean" and "wmean" in r:
-                val = r["wmean"]
+                val, vmag = r["wmean"], mag_w
             elif s == "use_perr" and "perr" in r:
                 err = r["perr"]
         if not isinstance(ot, list):
             fail("selector:exception", "selector raised", ot, None)
             break
         exp = [val, err, kk * val + cc, abs(kk) * err]
-        lt = 1e-11 * math.sqrt(kappa) + tol
-        if not all(near(a, b, lt) or abs(a - b) < 1e-9 * (abs(kk * val) + abs(cc) + 1e-300) * lt * 1e9
-                   for a, b in zip(ot, exp)):
+        mags = [vmag, err, abs(kk) * vmag + abs(cc), abs(kk) * err]
+        tols = [1e-12, tol, 1e-12, tol]
+        if not all(near(a, b, t, g) for a, b, t, g in zip(ot, exp, tols, mags)):
             fail("selector:{}".format(c["sels"][i - 1] if i else "init"),
                  "value/uncertainty in use (or used downstream) is not the selected statistic",
                  ot, exp)
             break
+    mc_downstream_check(c, o, lambda sig, what, **kw: fail(
+        sig, what, kw.pop("impl", None), kw.pop("expected", None), **kw))
     p = o.get("pair")
     if p and "cov" in r and r.get("vy", 0) > 0:
         ky = 1 + float((sum(F(unbits(y)) for y in c["pair"]["ys"]) / len(c["xs"])) ** 2 / r["vy"])
